@@ -1,6 +1,7 @@
 package gen
 
 import (
+	"strings"
 	"fmt"
 	"math/rand"
 
@@ -355,6 +356,9 @@ func SPDXFileNode(r *rand.Rand, id string, forceAlgo int) *sbom.Node {
 }
 
 func UniqueIDs(r *rand.Rand, n int, mk func(*rand.Rand) string) []string {
+	if r.Intn(4) == 0 && n <= 100 {
+		return RelatedIDs(r, n)
+	}
 	seen := Set{}
 	var out []string
 	for len(out) < n {
@@ -366,6 +370,52 @@ func UniqueIDs(r *rand.Rand, n int, mk func(*rand.Rand) string) []string {
 		out = append(out, id)
 	}
 	return out
+}
+
+// RelatedIDs: n distinct short identifiers over {a,b,-} (length 1..4), so that identifiers are prefixes, suffixes and
+// concatenations of one another ("a"+"bb" == "ab"+"b"): keys built by gluing identifiers together collide on them.
+func RelatedIDs(r *rand.Rand, n int) []string {
+	var all []string
+	var rec func(p string)
+	rec = func(p string) {
+		if len(p) > 0 {
+			all = append(all, p)
+		}
+		if len(p) == 4 {
+			return
+		}
+		for _, ch := range "ab-" {
+			rec(p + string(ch))
+		}
+	}
+	rec("")
+	// prefer the shortest ones: collisions need short pieces
+	short, long := all[:0:0], all[:0:0]
+	for _, s := range all {
+		if len(s) <= 2 {
+			short = append(short, s)
+		} else {
+			long = append(long, s)
+		}
+	}
+	r.Shuffle(len(short), func(i, j int) { short[i], short[j] = short[j], short[i] })
+	r.Shuffle(len(long), func(i, j int) { long[i], long[j] = long[j], long[i] })
+	out := append(short, long...)[:n]
+	r.Shuffle(len(out), func(i, j int) { out[i], out[j] = out[j], out[i] })
+	return out
+}
+
+// IsRelatedIDs reports whether the list's identifiers come from RelatedIDs.
+func IsRelatedIDs(nl *sbom.NodeList) bool {
+	if nl == nil || len(nl.Nodes) < 2 {
+		return false
+	}
+	for _, n := range nl.Nodes {
+		if len(n.Id) == 0 || len(n.Id) > 4 || strings.Trim(n.Id, "ab-") != "" {
+			return false
+		}
+	}
+	return true
 }
 
 // SPDXDoc draws a document of the SPDX-representable class. k forces coverage:
